@@ -15,4 +15,4 @@ for p in "$@"; do
 done
 git checkout -- . ; git status --short | head -2
 # the generated part of the model goes back to the clean sources
-(cd /verif && PYTHONPATH=/verif:/repo/src /venv/bin/python -W ignore -m harness.gen_interp >/dev/null 2>&1; PYTHONPATH=/verif:/repo/src /venv/bin/python -W ignore -m harness.gen_infer >/dev/null 2>&1; PYTHONPATH=/verif:/repo/src /venv/bin/python -W ignore -m harness.gen_model >/dev/null 2>&1; PYTHONPATH=/verif:/repo/src /venv/bin/python -W ignore -m harness.gen_prob >/dev/null 2>&1; PYTHONPATH=/verif:/repo/src /venv/bin/python -W ignore -m harness.gen_interp_multi >/dev/null 2>&1; PYTHONPATH=/verif:/repo/src /venv/bin/python -W ignore -m harness.gen_ws >/dev/null 2>&1; PYTHONPATH=/verif:/repo/src /venv/bin/python -W ignore -m harness.gen_config >/dev/null 2>&1; PYTHONPATH=/verif:/repo/src /venv/bin/python -W ignore -m harness.gen_limits >/dev/null 2>&1; PYTHONPATH=/verif:/repo/src /venv/bin/python -W ignore -m harness.gen_toys >/dev/null 2>&1; PYTHONPATH=/verif:/repo/src /venv/bin/python -W ignore -m harness.gen_fit >/dev/null 2>&1; PYTHONPATH=/verif:/repo/src /venv/bin/python -W ignore -m harness.gen_cli >/dev/null 2>&1; PYTHONPATH=/verif:/repo/src /venv/bin/python -W ignore -m harness.gen_exc >/dev/null 2>&1; PYTHONPATH=/verif:/repo/src /venv/bin/python -W ignore -m harness.gen_patchset >/dev/null 2>&1; PYTHONPATH=/verif:/repo/src /venv/bin/python -W ignore -m harness.gen_join >/dev/null 2>&1; PYTHONPATH=/verif:/repo/src /venv/bin/python -W ignore -m harness.gen_xml >/dev/null 2>&1)
+(cd /verif && PYTHONPATH=/verif:/repo/src /venv/bin/python -W ignore -m harness.gen_interp >/dev/null 2>&1; PYTHONPATH=/verif:/repo/src /venv/bin/python -W ignore -m harness.gen_infer >/dev/null 2>&1; PYTHONPATH=/verif:/repo/src /venv/bin/python -W ignore -m harness.gen_model >/dev/null 2>&1; PYTHONPATH=/verif:/repo/src /venv/bin/python -W ignore -m harness.gen_prob >/dev/null 2>&1; PYTHONPATH=/verif:/repo/src /venv/bin/python -W ignore -m harness.gen_interp_multi >/dev/null 2>&1; PYTHONPATH=/verif:/repo/src /venv/bin/python -W ignore -m harness.gen_ws >/dev/null 2>&1; PYTHONPATH=/verif:/repo/src /venv/bin/python -W ignore -m harness.gen_config >/dev/null 2>&1; PYTHONPATH=/verif:/repo/src /venv/bin/python -W ignore -m harness.gen_limits >/dev/null 2>&1; PYTHONPATH=/verif:/repo/src /venv/bin/python -W ignore -m harness.gen_toys >/dev/null 2>&1; PYTHONPATH=/verif:/repo/src /venv/bin/python -W ignore -m harness.gen_fit >/dev/null 2>&1; PYTHONPATH=/verif:/repo/src /venv/bin/python -W ignore -m harness.gen_cli >/dev/null 2>&1; PYTHONPATH=/verif:/repo/src /venv/bin/python -W ignore -m harness.gen_exc >/dev/null 2>&1; PYTHONPATH=/verif:/repo/src /venv/bin/python -W ignore -m harness.gen_patchset >/dev/null 2>&1; PYTHONPATH=/verif:/repo/src /venv/bin/python -W ignore -m harness.gen_join >/dev/null 2>&1; PYTHONPATH=/verif:/repo/src /venv/bin/python -W ignore -m harness.gen_xml >/dev/null 2>&1; PYTHONPATH=/verif:/repo/src /venv/bin/python -W ignore -m harness.gen_events >/dev/null 2>&1)
